@@ -19,6 +19,11 @@ def run_translators():
 
 
 def run():
+    # the harness is needed by the translators that parse with the real parser (t_std)
+    ok2, msg = C.cargo_build()
+    if not ok2:
+        print(msg[-3000:])
+        return 1
     run_translators()
     vos = []
     for p in C.coq_sources():
@@ -27,10 +32,6 @@ def run():
     if not ok:
         print(log[-4000:])
         print("setup: Coq build failed (checks will report which obligation)")
-    ok2, msg = C.cargo_build()
-    if not ok2:
-        print(msg[-3000:])
-        return 1
     ok3, msg = C.build_model_runner()
     if not ok3:
         print(msg[-3000:])
